@@ -326,10 +326,17 @@ class Hierarchy:
         return Hierarchy({int(k): v for k, v in d["parents"].items()},
             {int(k): v for k, v in d["variances"].items()}, d["nbase"])
 
-    def inst(self, t):
-        """(op, args) -> transforge TypeOperation"""
+    def inst(self, t, memo=None):
+        """(op, args) -> transforge TypeOperation.  With a memo dict, equal
+        subterms are one shared object (as when a user writes S = A() once and
+        uses S in several types)."""
         o, args = t
-        return self.ops[o](*(self.inst(a) for a in args))
+        if memo is None:
+            return self.ops[o](*(self.inst(a) for a in args))
+        k = repr(t)
+        if k not in memo:
+            memo[k] = self.ops[o](*(self.inst(a, memo) for a in args))
+        return memo[k]
 
     def names(self):
         return {i: str(op) for i, op in self.ops.items()}
